@@ -1,6 +1,6 @@
 (* C10  Executor/StreamSource: no lost wake, results and items delivered exactly once. *)
-From CV Require Import Base Consts ConcExec.
-From CVP Require Import ConcExec_proofs.
+From CV Require Import Base Consts ConcExec StreamSrc.
+From CVP Require Import ConcExec_proofs StreamSrc_proofs.
 Open Scope N_scope.
 
 (* For ANY number of tasks with ANY poll scripts, ANY program of schedule/dispatch on the loop thread, ANY number of waker
@@ -40,3 +40,17 @@ Example C10_selfwake_nonvacuous :
                  (repeat 0%nat 14 ++ [1; 1; 1; 1] ++ repeat 0%nat 10)%nat in
   map tk_polls (etasks s) = [3] /\ map tk_delivered (etasks s) = [1] /\ eq s = [].
 Proof. vm_compute. repeat split; reflexivity. Qed.
+
+(* STREAMSOURCE over ALL histories of an external producer's push / close and the loop's dispatches (coq/theories/StreamSrc.v: a ping
+   source plus a poll_next loop; the stream stores the waker of a Pending poll, push and close wake a stored waker; new() pings once):
+   every pushed item is delivered exactly once and in order (delivered ++ queued = pushed), None is delivered once, last, together with
+   the removal, and whenever something is ready a wake-up is pending - so right after any dispatch nothing is left queued, and if the
+   producer is gone the stream has ended. *)
+Theorem C10_stream_exactly_once_in_order : forall ops, QINV (q_run ops).
+Proof. exact QINV_run. Qed.
+Theorem C10_stream_dispatch_leaves_nothing_queued : forall ops, let s := q_run (ops ++ [QDispatch]) in
+  qq s = [] /\ items (qdelivered s) = qpushed s /\ (qclosed s = true -> qremoved s = true).
+Proof. exact dispatch_drains. Qed.
+Example C10_stream_nonvacuous :
+  q_obs (q_run [QPush 1; QPush 2; QDispatch; QPush 3; QDispatch; QClose; QPush 4; QDispatch; QDispatch]) = ([Some 1; Some 2; Some 3; None], true).
+Proof. reflexivity. Qed.
